@@ -133,6 +133,17 @@ def run(case, bct, REC):
         nonisol = len(members(A))
         if 0 < len(Sm) < nonisol:
             REC.note_nontrivial(PROP, fname, A, k)
+    # the same levels again in a scrambled order (a decomposition need not be asked for level by level: anything a
+    # routine remembers from the previous level is then of no use, or wrong)
+    lv = sorted(exp_core)
+    order = list(np.random.RandomState(case['ws']).permutation(lv)) + lv[::-1][:3]
+    for k in order[:8]:
+        k = int(k)
+        ok, res = call(REC, PROP, fname, f, A, k)
+        if ok:
+            E = core_expected(A, O.kcore_set(A, k, mode))
+            REC.check(PROP, fname, 'core_matrix', bool(np.array_equal(np.asarray(res[0]), E)) and int(res[1]) == len(members(E)),
+                      {'A': A, 'k': k, 'got': res[0], 'order_of_levels': [int(x) for x in order[:8]]}, ('scrambled_levels',))
     if 3 <= n <= 9:
         for k in (1, 2, 3):
             layout_variants_agree(REC, PROP, fname, f, A, args=(k,))
@@ -184,6 +195,14 @@ def run(case, bct, REC):
             prevm = members(X)
             if 0 < len(Sm) < len(members(W)):
                 REC.note_nontrivial(PROP, 'score_wu', W, s)
+        gl = sorted(grid)
+        order = [gl[i] for i in np.random.RandomState(case['ws'] + 1).permutation(len(gl))] + gl[::-1][:3]
+        for sv in order[:9]:
+            ok, res = call(REC, PROP, 'score_wu', bct.score_wu, W, sv)
+            if ok:
+                E = core_expected(W, O.kcore_set(W, sv, 'wei'))
+                REC.check(PROP, 'score_wu', 'core_matrix', bool(np.array_equal(np.asarray(res[0]), E)) and int(res[1]) == len(members(E)),
+                          {'W': W, 's': sv, 'got': res[0], 'order_of_levels': order[:9]}, ('scrambled_levels',))
     # non-dyadic (one-decimal) weights: s exactly equal to a node's strength inside successive cores.
     # Strengths are summed sequentially in index order on both sides (numpy's axis-0 reduction and the oracle).
     if not directed and 3 <= n <= 9:
